@@ -77,6 +77,17 @@ def make_variant(base: Path, v: Dict[str, Any]) -> Optional[Path]:
         raise AnalysisError(f"self-test variant {v['id']} is not valid Python: {e}")
 
 
+def _one_variant(args):
+    prop, root, v = args
+    d = make_variant(Path(root), v)
+    if d is None:
+        return None
+    try:
+        return analyse(prop, d)
+    finally:
+        shutil.rmtree(d, ignore_errors=True)
+
+
 def run_selftest(ctx: Ctx, prop: str) -> Dict[str, Any]:
     from .mutants import VARIANTS
 
@@ -84,16 +95,21 @@ def run_selftest(ctx: Ctx, prop: str) -> Dict[str, Any]:
     todo = [v for v in VARIANTS if prop in v["props"]]
     stats = {"variants": len(todo), "breaking_detected": 0, "benign_silent": 0, "skipped": 0, "details": []}
     problems = []
-    for v in todo:
-        d = make_variant(ctx.repo.root, v)
-        if d is None:
+    import concurrent.futures as cf
+    import multiprocessing as mp
+
+    root = ctx.repo.root
+    workers = max(1, min(8 if prop == "C13" else 14, len(todo), (os.cpu_count() or 2)))
+    if workers > 1:
+        with cf.ProcessPoolExecutor(max_workers=workers, mp_context=mp.get_context("fork")) as ex:
+            results = list(ex.map(_one_variant, [(prop, str(root), v) for v in todo]))
+    else:
+        results = [_one_variant((prop, str(root), v)) for v in todo]
+    for v, fail in zip(todo, results):
+        if fail is None:
             stats["skipped"] += 1
             stats["details"].append({"id": v["id"], "result": "skipped (anchor text not found exactly once)"})
             continue
-        try:
-            fail = analyse(prop, d)
-        finally:
-            shutil.rmtree(d, ignore_errors=True)
         new = fail - base_fail
         if v["kind"] == "breaking":
             want = v.get("rule", {}).get(prop) if isinstance(v.get("rule"), dict) else v.get("rule")
